@@ -160,6 +160,7 @@ structure Req where
   level : Nat
   chess : Nat
   isGroup : Bool
+  autoCpLog : Bool    -- the site configuration ptttype.DEFAULT_AUTOCPLOG (a package variable) while it is served
   deriving Repr, DecidableEq
 
 /-! ### sort.Sort -/
@@ -365,7 +366,7 @@ def buildTitle (q : Req) : Bytes :=
 
 /-- the attribute word after the BRD_CPLOG / BRD_GROUPBOARD rules of `mNewbrd`. -/
 def attr1 (q : Req) : Nat :=
-  let a0 := if Gen.NewBoard.defaultAutoCpLog then q.attr ||| BRD_CPLOG else q.attr
+  let a0 := if q.autoCpLog then q.attr ||| BRD_CPLOG else q.attr
   if q.isGroup then clearBits (a0 ||| BRD_GROUP) BRD_CPLOG else clearBits a0 BRD_GROUP
 
 /-- `!user.UserLevel.HasUserPerm(PERM_BOARD) || brdAttr&BRD_HIDE != 0`: post-mask and level are dropped. -/
@@ -476,6 +477,7 @@ structure BbsArgs where
   level : Nat
   chess : Nat
   isGroup : Bool
+  autoCpLog : Bool
   deriving Repr
 
 inductive BbsRes where
@@ -498,7 +500,8 @@ def bbsDerive (users : List Bytes) (levels : List Nat) (a : BbsArgs) : Except Bb
       let lvl := if cstrcmp recId Gen.NewBoard.strSysop = 0 then Gen.NewBoard.adminLevel else lvl1
       .ok { user := recId, ulevel := lvl, uid := (uid : Int), cls := a.cls, name := copyInto 13 a.name,
             bclass := a.bclass, btitle := a.btitle, bms := some (newBM (a.bms.map (copyInto 13))),
-            attr := a.attr, level := a.level, chess := a.chess, isGroup := a.isGroup }
+            attr := a.attr, level := a.level, chess := a.chess, isGroup := a.isGroup,
+            autoCpLog := a.autoCpLog }
 
 /-- `bbs.CreateBoard`. -/
 def bbsCreate (srt : Sorter) (s : State) (levels : List Nat) (a : BbsArgs) : State × M BbsRes :=
